@@ -249,7 +249,12 @@ public:
     // transparent wrappers
     if (const auto* P = dyn_cast<ParenExpr>(X)) return expr(P->getSubExpr());
     if (const auto* P = dyn_cast<ExprWithCleanups>(X)) return expr(P->getSubExpr());
-    if (const auto* P = dyn_cast<MaterializeTemporaryExpr>(X)) return expr(P->getSubExpr());
+    if (const auto* P = dyn_cast<MaterializeTemporaryExpr>(X)) {
+      json::Value sub = expr(P->getSubExpr());
+      // a temporary bound to a reference: remember whether its lifetime is extended by a declaration
+      if (json::Object* so = sub.getAsObject()) (*so)["mat"] = P->getExtendingDecl() ? "ext" : "tmp";
+      return sub;
+    }
     if (const auto* P = dyn_cast<CXXBindTemporaryExpr>(X)) return expr(P->getSubExpr());
     if (const auto* P = dyn_cast<ConstantExpr>(X)) return expr(P->getSubExpr());
     if (const auto* P = dyn_cast<SubstNonTypeTemplateParmExpr>(X)) return expr(P->getReplacement());
